@@ -299,6 +299,7 @@ def element_ops(n, K, a, obj, P):
                 ops.append(_call(f"update_{it}", "update_item:default", x, items[0], **f))
             if P.get("invalid", True):
                 ops.append(_call(f"transform_{it}", "transform_item:bad", 0, FN("bad"), _by_index=True, **f))
+                ops.append(_call(f"transform_{it}", "transform_item:eqbad", 0, FN("eqbad"), _by_index=True, **f))
                 if P.get("raising"):
                     ops.append(_call(f"transform_{it}", "transform_item:raise", 0, FN("raise"), _by_index=True, **f))
         elif kind in G.MAP_KINDS:
@@ -339,6 +340,10 @@ def element_ops(n, K, a, obj, P):
                 ops.append(_call(f"update_{it}", "update_item:dupkey", "a", key="b", **f))
             if P.get("invalid", True):
                 ops.append(_call(f"transform_{it}", "transform_item:bad", items[0], FN("bad"), **f))
+                for x in items[:2]:
+                    ops.append(_call(f"transform_{it}", "transform_item:eqbad", x, FN("eqbad"), **f))
+                if kind == "tags":
+                    ops.append(_call(f"update_{it}", "update_item:eqbad", items[0], float(items[0]) if isinstance(items[0], int) else 1.0, **f))
                 if P.get("raising"):
                     ops.append(_call(f"transform_{it}", "transform_item:raise", items[0], FN("raise"), **f))
     if P.get("iffalse", True):
@@ -412,6 +417,8 @@ def ctor_kwargs_variants(rec, P):
         if a.get("lookup"):
             out.append(("new:lookup", dict(base, **{n: ["list", ["tbl"]] if "item" in K else "tbl"})))
     for n, K, a in tab:
+        if a.get("default") == "attr_noinit":
+            continue  # init=False: not a constructor keyword
         for v in K["conf"][: (2 if P.get("small") else 4)]:
             out.append(("new:conf", dict(base, **{n: v})))
         if P.get("invalid", True):
